@@ -265,7 +265,17 @@ def go_build():
     hdir = os.path.join(VERIF, "harness")
     with Lock("go"):
         sh("cp %s/go.sum %s/go.sum" % (REPO, hdir))
-        rc, out = sh(["go", "build", "-tags", "verif", "-o", HARNESS, "."], cwd=hdir, timeout=900)
+        cmd = ["go", "build", "-tags", "verif", "-o", HARNESS, "."]
+        if os.path.realpath(REPO) != "/repo":
+            # VERIF_REPO: a scratch copy of the repository (seeded-change regression, tools/seeded_regress.sh)
+            alt = os.path.join(hdir, "go.alt.mod")
+            with open(os.path.join(hdir, "go.mod")) as f:
+                txt = f.read().replace("=> /repo", "=> " + os.path.realpath(REPO))
+            with open(alt, "w") as f:
+                f.write(txt)
+            sh("cp %s/go.sum %s/go.alt.sum" % (REPO, hdir))
+            cmd = ["go", "build", "-modfile=go.alt.mod", "-tags", "verif", "-o", HARNESS, "."]
+        rc, out = sh(cmd, cwd=hdir, timeout=900)
     return rc == 0, out
 
 
